@@ -49,7 +49,7 @@ class Check:
         regenerated Gen files and be closed under the global context."""
         vfile = os.path.join(VERIF, 'coq', 'Properties', self.pid + '.v')
         src = open(vfile).read() if os.path.exists(vfile) else ''
-        theorems = re.findall(r'^\s*(?:Theorem|Lemma)\s+(\w+)', src, re.M)
+        theorems = re.findall(r'^\s*Theorem\s+(\w+)', src, re.M)
         self.obligations = len(theorems)
         self.theorems = theorems
         afile = os.path.join(BUILD, 'assumptions', self.pid + '.txt')
